@@ -2,10 +2,12 @@
 package main
 
 import (
+	"bytes"
 	"fmt"
 	"runtime"
 	"strconv"
 	"strings"
+	"sync"
 	"time"
 
 	"github.com/b2broker/simplefix-go/session"
@@ -94,7 +96,7 @@ type cell struct {
 
 func main() {
 	c := vk.Init("C16")
-	c.Rule("matrix: admin type {Logon, Logout, Heartbeat, TestRequest, ResendRequest} x damage {wrong checksum, wrong body length, non-numeric body field, non-numeric header field, wrong checksum/length + missing or non-numeric MsgSeqNum, undamaged but not permitted in the state, not permitted in the state and MsgSeqNum missing or non-numeric (correct framing), correct framing with a non-numeric or EMPTY MsgSeqNum value, an EMPTY numeric body field} x session state {waiting, logged on, logged on with the session's own TestRequest pending (real time, N=1; timer Heartbeats/TestRequests are not counted as answers)} x role x position (after 0..3 valid messages) x follow-up valid traffic; tag 35 itself is never damaged. Oracle per offending step: exactly one message emitted and it is a Reject with 45 = the offending 34 (or 371 = 34 when 34 is missing/non-numeric); IsLogged unchanged; context not cancelled and handler still running; the following valid message has its normal effect (TestRequest answered when logged on, good Logon accepted when waiting). distinct = matrix cell x position x seqnum; non-trivial = all")
+	c.Rule("matrix: admin type {Logon, Logout, Heartbeat, TestRequest, ResendRequest} x damage {wrong checksum, wrong body length, non-numeric body field, non-numeric header field, wrong checksum/length + missing or non-numeric MsgSeqNum, undamaged but not permitted in the state, not permitted in the state and MsgSeqNum missing or non-numeric (correct framing), correct framing with a non-numeric or EMPTY MsgSeqNum value, an EMPTY numeric body field} x session state {waiting, logged on, logged on with the session's own TestRequest pending (real time, N=1; timer Heartbeats/TestRequests are not counted as answers)} x role x position (after 0..3 valid messages) x follow-up valid traffic; plus, over a scripted connection while logged on, every admin type with a CheckSum field whose value is 0, 1, 2, 4 or 5 characters long followed by a valid TestRequest; tag 35 itself is never damaged. Oracle per offending step: exactly one message emitted and it is a Reject with 45 = the offending 34 (or 371 = 34 when 34 is missing/non-numeric); IsLogged unchanged; context not cancelled and handler still running; the following valid message has its normal effect (TestRequest answered when logged on, good Logon accepted when waiting). distinct = matrix cell x position x seqnum; non-trivial = all")
 	c.Assume("a message whose only defect is a missing sequence number is not in the statement's list; 'state-not-permitted' cells are: Heartbeat/TestRequest/ResendRequest/Logout while waiting, Logon while logged on")
 	reps := c.Pick(10, 120)
 	var cells []cell
@@ -123,7 +125,80 @@ func main() {
 		}
 	}
 	vk.Parallel(len(probeCells), 32, func(i int) { runCell(c, probeCells[i], 1000000+i) })
+	connCells(c)
 	c.Finish()
+}
+
+// connCells sends damaged admin messages over a connection (scripted net.Conn, the library's connection reader):
+// CheckSum fields whose value is not three characters long must still end the message they belong to, so that it is
+// rejected at once and the valid message behind it is served.
+func connCells(c *vk.Ctx) {
+	sums := []string{"1", "0017", "", "12345", "ab", "00"}
+	var wg sync.WaitGroup
+	for ri, role := range []rig.Role{rig.Acceptor, rig.Initiator} {
+		for ai := range admins {
+			wg.Add(1)
+			go func(ri int, role rig.Role, ai int) {
+				defer wg.Done()
+				a := admins[ai]
+				f, err := rig.StartFull(rig.FullCfg{Role: role, HeartBtInt: 30, BufSize: 10, Notify: true, Label: fmt.Sprintf("c16-conn-%d-%d", ri, ai)})
+				if err != nil {
+					c.Inconclusive("rig: " + err.Error())
+					return
+				}
+				defer f.Shutdown()
+				var l *rig.Link
+				if role == rig.Acceptor {
+					if l, err = f.Connect("c16"); err != nil {
+						c.Inconclusive("connect: " + err.Error())
+						return
+					}
+				} else {
+					l = f.Links[0]
+				}
+				if !l.Logon(role, 30, 5*time.Second) {
+					c.Inconclusive("full-stack logon did not complete")
+					return
+				}
+				for _, sum := range sums {
+					base := a.build(l.Peer)
+					seq := strconv.Itoa(l.Peer.Seq)
+					// replace the CheckSum value
+					cut := bytes.LastIndex(base[:len(base)-1], []byte{1})
+					msg := append(append([]byte(nil), base[:cut+1]...), []byte("10="+sum+"\x01")...)
+					desc := fmt.Sprintf("%s over a connection, logged on: %s with CheckSum field 10=%q, then a valid TestRequest", role, a.name, sum)
+					replay := map[string]interface{}{"cell": desc, "seed": c.Seed, "message": fixref.Pretty(msg)}
+					fr0, _ := l.Frames()
+					before := len(fr0)
+					l.Conn.Feed(msg)
+					okR := l.WaitFrames(2*time.Second, func(fs []rig.Frame) bool { return len(fs) > before })
+					fr1, _ := l.Frames()
+					c.Eval(vk.Hash64([]byte(desc)), true)
+					c.Count("connection_cells", 1)
+					key := fmt.Sprintf("C16/over-connection/%%s/%s/checksum-value-of-%d-characters", a.name, len(sum))
+					if !okR || len(fr1) != before+1 || fr1[before].Type != "3" {
+						var t []string
+						for _, x := range fr1[before:] {
+							t = append(t, x.Type)
+						}
+						c.Violate(fmt.Sprintf(key, "not-rejected-at-once"), fmt.Sprintf("%s: within 2 s the damaged message was answered with %v, want exactly one Reject", desc, t), replay)
+						return
+					}
+					if got := fixref.GetS(fr1[before].Fields, rig.TRefSeq); got != seq {
+						c.Violate(fmt.Sprintf(key, "reject-wrong-refseqnum"), fmt.Sprintf("%s: Reject has 45=%q, the damaged message had 34=%s", desc, got, seq), replay)
+					}
+					l.Conn.Feed(l.Peer.TestRequest("after-" + sum))
+					okT := l.WaitFrames(2*time.Second, func(fs []rig.Frame) bool { return len(fs) > before+1 })
+					fr2, _ := l.Frames()
+					if !okT || len(fr2) != before+2 || fr2[before+1].Type != "0" || fixref.GetS(fr2[before+1].Fields, rig.TTestReqID) != "after-"+sum {
+						c.Violate(fmt.Sprintf(key, "following-valid-message-not-served"), fmt.Sprintf("%s: the TestRequest behind the damaged message was not answered with its Heartbeat (%d new messages)", desc, len(fr2)-before-1), replay)
+						return
+					}
+				}
+			}(ri, role, ai)
+		}
+	}
+	wg.Wait()
 }
 
 func runCell(c *vk.Ctx, ce cell, i int) {
